@@ -20,6 +20,10 @@ Clause(e) ==
          ELSE IF Missed(e.node, e.field, e.v, e.vals) # {} THEN "C19.Propagate/missed"
          ELSE IF Clobbered(e.node, e.field, e.changed) # {} THEN "C19.Propagate/clobbered"
          ELSE ""
+    [] e.op = "roundtrip" ->                                                     \* save -> load of a parameter object
+         IF e.res # "ok" THEN "C19.Roundtrip/raised"
+         ELSE IF RoundtripChanged(e.changed) # {} THEN "C19.Roundtrip/changed"   \* a value or its type differs after loading
+         ELSE ""
     [] e.op = "replace" ->
          IF <<e.node, e.child>> \notin Slots THEN "driver/unknown-slot"
          ELSE IF e.res # "ok" THEN "C19.Replace/raised"
@@ -49,7 +53,8 @@ Clause(e) ==
          ELSE IF LightsWrong(e) # {} THEN "C19.Lights/state"                   \* the artist does not show the state at time_begin
          ELSE ""
     [] e.op = "draw" ->
-         IF e.part = "total" /\ (e.arch \notin Archetypes \/ e.win \notin Windows) THEN "driver/archetype"
+         IF e.part = "total" /\ (e.arch \notin Archetypes \/ e.win \notin Windows \/ e.view \notin Views
+                                 \/ e.target \notin DrawTargets \/ e.via \notin Routes) THEN "driver/archetype"
          ELSE IF e.res # "ok" THEN "C19.Total/draw" ELSE ""
     [] e.op = "render" -> IF e.res \notin {"ok", "skipped"} THEN "C19.Total/render" ELSE ""
     [] OTHER -> "machinery/unknown-op"
